@@ -55,12 +55,14 @@ def preprocess(body, defined):
             if not m: continue
             d, rest = m.group(1), m.group(2).strip()
             def ev(e):
-                e = re.sub(r'defined\s*\(\s*(\w+)\s*\)', lambda k: 'True' if k.group(1) in defined else 'False', e)
-                e = re.sub(r'defined\s+(\w+)', lambda k: 'True' if k.group(1) in defined else 'False', e)
-                e = e.replace('&&', ' and ').replace('||', ' or ').replace('!', ' not ')
-                if not re.fullmatch(r'[\sA-Za-z()]*', e) or re.search(r'\b(?!True|False|and|or|not)\w+', e):
-                    raise XErr('unsupported preprocessor condition: ' + rest)
-                return bool(eval(e))
+                e = re.sub(r'defined\s*\(\s*(\w+)\s*\)', lambda k: ' 1 ' if k.group(1) in defined else ' 0 ', e)
+                e = re.sub(r'defined\s+(\w+)', lambda k: ' 1 ' if k.group(1) in defined else ' 0 ', e)
+                # a bare macro name evaluates to 1 when it is in `defined`, to 0 otherwise (as an undefined identifier does in #if)
+                e = re.sub(r'\b[A-Za-z_]\w*\b', lambda k: '1' if k.group(0) in defined else '0', e)
+                e = e.replace('&&', ' and ').replace('||', ' or ').replace('!=', ' <> ').replace('!', ' not ').replace('<>', '!=')
+                if not re.fullmatch(r'[\s\d()=!<>a-z]*', e): raise XErr('unsupported preprocessor condition: ' + rest)
+                try: return bool(eval(e))
+                except Exception: raise XErr('unsupported preprocessor condition: ' + rest)
             if d == 'ifdef': stack.append([rest in defined, False])
             elif d == 'ifndef': stack.append([rest not in defined, False])
             elif d == 'if': stack.append([ev(rest), False])
@@ -660,6 +662,166 @@ def gen_linalg(repo):
            'From Coq Require Import Arith List.\nFrom FastorV Require Import Base.Scalar.\n\n')
     return G, hdr + '\n'.join(G.defs)
 
+# ----------------------------------------------------------------------------------------------------
+# small imperative fragments (view constructors and accessors): symbolic execution into Gallina over Z
+def split_stmts(body):
+    """top-level statements of a block: ('if', [(cond, block)...], else_block) | ('for', header, block) | ('s', text)"""
+    out = []; i = 0; n = len(body)
+    def skip_ws(k):
+        while k < n and body[k].isspace(): k += 1
+        return k
+    def one_stmt(k):
+        """returns (stmt, next index) for the statement starting at k (k already at a non-space)"""
+        m = re.compile(r'(if|for)\s*\(').match(body, k)
+        if m:
+            j = match_close(body, m.end() - 1, '(', ')'); hdr = body[m.end():j]; k2 = skip_ws(j + 1)
+            if body[k2] == '{':
+                e = match_close(body, k2); blk = body[k2 + 1:e]; k3 = e + 1
+            else:
+                e = body.index(';', k2); blk = body[k2:e + 1]; k3 = e + 1
+            if m.group(1) == 'for': return ('for', hdr, blk), k3
+            arms = [(hdr, blk)]; els = None
+            k4 = skip_ws(k3)
+            if body.startswith('else', k4) and not (body[k4 + 4:k4 + 5].isalnum() or body[k4 + 4:k4 + 5] == '_'):
+                k5 = skip_ws(k4 + 4)
+                if re.compile(r'if\s*\(').match(body, k5):
+                    st, k6 = one_stmt(k5)
+                    arms += st[1]; els = st[2]; k3 = k6
+                elif body[k5] == '{':
+                    e = match_close(body, k5); els = body[k5 + 1:e]; k3 = e + 1
+                else:
+                    e = body.index(';', k5); els = body[k5:e + 1]; k3 = e + 1
+            return ('if', arms, els), k3
+        e = body.find(';', k)
+        if e < 0: raise XErr('statement without terminator: ' + body[k:k + 40])
+        return ('s', body[k:e].strip()), e + 1
+    while True:
+        i = skip_ws(i)
+        if i >= n: break
+        st, i = one_stmt(i); out.append(st)
+    return out
+
+class Imp:
+    def __init__(self, subs, env, atoms=()):
+        self.subs, self.env0, self.atoms = subs, env, atoms
+    def expr(self, txt, state):
+        for pat, rep in self.subs: txt = re.sub(pat, rep, txt)
+        env = dict(self.env0)
+        for k, v in state.items():
+            if not k.startswith('@'): env[k] = (v, 'n')
+        return translate(txt, 'Z', env, self.atoms)
+    def run(self, body, state):
+        state = dict(state)
+        for st in split_stmts(body):
+            if st[0] == 's':
+                t = st[1]
+                if not t or t.startswith('SIMDVector') or t.startswith('std::array') or t.startswith('FASTOR_ASSERT'): continue
+                for pat, rep in self.subs: t = re.sub(pat, rep, t)
+                m = re.fullmatch(r'(?:auto|int|size_t|FASTOR_INDEX)\s+(.+)', t, flags=re.S)
+                if m:
+                    for d in split_top(m.group(1)):
+                        mm = re.fullmatch(r'\s*(\w+)\s*=\s*(.+)', d, flags=re.S)
+                        if not mm: raise XErr('declaration: ' + d)
+                        state[mm.group(1)] = self.expr(mm.group(2), state)[0]
+                    continue
+                m = re.fullmatch(r'return\s+_expr\.data\(\)\s*\[(.+)\]', t, flags=re.S)
+                if m: state['@ret'] = self.expr(m.group(1), state)[0]; continue
+                m = re.fullmatch(r'return\s+_expr\s*\((.+)\)', t, flags=re.S)
+                if m:
+                    a = split_top(m.group(1)); state['@ret'] = '(' + ', '.join(self.expr(x, state)[0] for x in a) + ')'; continue
+                m = re.fullmatch(r'inds\s*\[\s*j\s*\]\s*=\s*(.+)', t, flags=re.S)
+                if m: state['@lane'] = self.expr(m.group(1), state)[0]; continue
+                m = re.fullmatch(r'_vec\.load\s*\(\s*_expr\.data\(\)\s*\+(.+),\s*is_aligned\(\)\s*\)', t, flags=re.S)
+                if m: state['@vec'] = '(%s, 1)' % self.expr(m.group(1), state)[0]; continue
+                m = re.fullmatch(r'vector_setter\s*\(\s*_vec\s*,\s*_expr\.data\(\)\s*,(.+)\)', t, flags=re.S)
+                if m:
+                    a = split_top(m.group(1))
+                    if len(a) == 2: state['@vec'] = '(%s, %s)' % (self.expr(a[0], state)[0], self.expr(a[1], state)[0])
+                    elif len(a) == 1 and a[0].strip() == 'inds': pass
+                    else: raise XErr('vector_setter arguments: ' + m.group(1))
+                    continue
+                if re.fullmatch(r'return\s+_vec', t): continue
+                m = re.fullmatch(r'(\w+)\s*(\+=|-=|=)\s*(.+)', t, flags=re.S)
+                if m and m.group(1) in state:
+                    e = self.expr(m.group(3), state)[0]
+                    state[m.group(1)] = e if m.group(2) == '=' else '(%s %s %s)' % (state[m.group(1)], m.group(2)[0], e)
+                    continue
+                raise XErr('unsupported statement: ' + t[:70])
+            elif st[0] == 'for':
+                if not re.match(r'\s*auto\s+j\s*=\s*0\s*;', st[1]): raise XErr('unsupported loop: ' + st[1][:50])
+                inner = dict(state); inner['j'] = 'j'
+                r = self.run(st[2], inner)
+                if '@lane' in r: state['@lane'] = r['@lane']
+            else:
+                def arm(k, st_):
+                    arms, els = st_
+                    if k == len(arms): return self.run(els, state) if els is not None else dict(state)
+                    return None
+                arms, els = st[1], st[2]
+                results = [self.run(b, state) for _, b in arms] + [self.run(els, state) if els is not None else dict(state)]
+                conds = [self.expr(c, state) for c, _ in arms]
+                conds = [t if so == 'b' else '(negb (%s =? 0))' % t for t, so in conds]
+                keys = set().union(*[set(r) for r in results])
+                merged = dict(state)
+                for k in keys:
+                    vals = [r.get(k, state.get(k)) for r in results]
+                    if any(v is None for v in vals): raise XErr('%s is not set on every path' % k)
+                    if all(v == vals[0] for v in vals): merged[k] = vals[0]; continue
+                    t = vals[-1]
+                    for c, v in zip(reversed(conds), reversed(vals[:-1])): t = '(if %s then %s else %s)' % (c, v, t)
+                    merged[k] = t
+                state = merged
+        return state
+
+def gen_views(repo):
+    """dynamic 1-D and 2-D views (const and non-const classes): constructor normalisation and the index computations of
+    eval_s(idx), eval(idx) (per lane), eval_s(i,j), eval(i,j)"""
+    G = Gen(repo)
+    subs1 = [(r'_seq\._first', 'f'), (r'_seq\._last', 'l'), (r'_seq\._step', 's'), (r'_seq\.size\(\)', 'sz'), (r'as\s*\[\s*0\s*\]', 'i')]
+    subs2 = [(r'_seq0\._first', 'f0'), (r'_seq0\._last', 'l0'), (r'_seq0\._step', 's0'), (r'_seq0\.size\(\)', 'sz0'),
+             (r'_seq1\._first', 'f1'), (r'_seq1\._last', 'l1'), (r'_seq1\._step', 's1'), (r'_seq1\.size\(\)', 'sz1'),
+             (r'as\s*\[\s*0\s*\]', 'i'), (r'as\s*\[\s*1\s*\]', 'j')]
+    def ids(names): return {n: (n, 'n') for n in names}
+    def method(rel, cls_re, nth_cls, meth_re, subs, env, init, want):
+        def fn():
+            txt = preprocess(G.src(rel), {'NDEBUG'})
+            cls, _ = find_scope(txt, cls_re, nth_cls)
+            ms = list(re.finditer(meth_re, cls, flags=re.S))
+            if not ms: raise XErr('method not found: ' + meth_re)
+            m = ms[0]; i = cls.index('{', m.end() - 1); j = match_close(cls, i)
+            st = Imp(subs, env).run(cls[i + 1:j], init)
+            if isinstance(want, str):
+                if want not in st: raise XErr('no %s computed' % want)
+                return st[want]
+            return '(' + ', '.join(st[w] for w in want) + ')'
+        return fn
+    V1 = 'expressions/views/tensor_views_1d.h'; V2 = 'expressions/views/tensor_views_2d.h'
+    for tag, nth, cre1, cre2 in [('const', 0, r'struct\s+TensorConstViewExpr\s*<\s*Tensor<T,N>\s*,\s*1\s*>[^{]*\{', r'struct\s+TensorConstViewExpr\s*<\s*Tensor<T,M,N>\s*,\s*2\s*>[^{]*\{'),
+                                 ('nonconst', 0, r'struct\s+TensorViewExpr\s*<\s*Tensor<T,N>\s*,\s*1\s*>[^{]*\{', r'struct\s+TensorViewExpr\s*<\s*Tensor<T,M,N>\s*,\s*2\s*>[^{]*\{')]:
+        ctor1 = r'FASTOR_INLINE\s+Tensor(?:Const)?ViewExpr\s*\((?:const\s+)?Tensor<T,N>\s*&\s*_ex\s*,\s*(?:const\s+)?seq\s*&?\s*_s\)\s*:[^{]*\{'
+        ctor2 = r'FASTOR_INLINE\s+Tensor(?:Const)?ViewExpr\s*\((?:const\s+)?Tensor<T,M,N>\s*&\s*_ex\s*,\s*seq\s+_s0\s*,\s*seq\s+_s1\)\s*:[^{]*\{'
+        G.define('gen_view1d_norm_%s' % tag, '(f l N : Z)', '(Z * Z)', method(V1, cre1, nth, ctor1, subs1, ids(['N']), {'f': 'f', 'l': 'l'}, ['f', 'l']),
+                 '%s: %s 1-D view, constructor normalisation of (_first,_last)' % (V1, tag))
+        G.define('gen_view1d_evals_%s' % tag, '(f s i : Z)', 'Z', method(V1, cre1, nth, r'FASTOR_INLINE\s+U\s+eval_s\s*\(\s*FASTOR_INDEX\s+i\s*\)\s*const\s*\{', subs1, ids(['f', 's', 'i']), {}, '@ret'),
+                 '%s: %s 1-D view, eval_s(i): offset into the parent' % (V1, tag))
+        G.define('gen_view1d_eval_%s' % tag, '(f s i : Z)', '(Z * Z)', method(V1, cre1, nth, r'FASTOR_INLINE\s+SIMDVector<U,simd_abi_type>\s+eval\s*\(\s*FASTOR_INDEX\s+i\s*\)\s*const\s*\{', subs1, ids(['f', 's', 'i']), {}, '@vec'),
+                 '%s: %s 1-D view, eval(i): (first offset, stride) of the gathered vector' % (V1, tag))
+        G.define('gen_view2d_norm_%s' % tag, '(f0 l0 f1 l1 M N : Z)', '(Z * Z * Z * Z)', method(V2, cre2, nth, ctor2, subs2, ids(['M', 'N']), {'f0': 'f0', 'l0': 'l0', 'f1': 'f1', 'l1': 'l1'}, ['f0', 'l0', 'f1', 'l1']),
+                 '%s: %s 2-D view, constructor normalisation of both ranges' % (V2, tag))
+        e2 = ids(['f0', 's0', 'f1', 's1', 'sz0', 'sz1', 'N', 'idx', 'i', 'j'])
+        G.define('gen_view2d_evals_%s' % tag, '(f0 s0 f1 s1 sz1 N idx : Z)', 'Z', method(V2, cre2, nth, r'FASTOR_INLINE\s+U\s+eval_s\s*\(\s*FASTOR_INDEX\s+idx\s*\)\s*const\s*\{', subs2, e2, {}, '@ret'),
+                 '%s: %s 2-D view, eval_s(idx): offset into the parent' % (V2, tag))
+        G.define('gen_view2d_evallane_%s' % tag, '(f0 s0 f1 s1 sz1 N idx j : Z)', 'Z', method(V2, cre2, nth, r'FASTOR_INLINE\s+SIMDVector<U,simd_abi_type>\s+eval\s*\(\s*FASTOR_INDEX\s+idx\s*\)\s*const\s*\{', subs2, e2, {}, '@lane'),
+                 '%s: %s 2-D view, eval(idx): offset gathered into lane j' % (V2, tag))
+        G.define('gen_view2d_evals2_%s' % tag, '(f0 s0 f1 s1 i j : Z)', '(Z * Z)', method(V2, cre2, nth, r'FASTOR_INLINE\s+U\s+eval_s\s*\(\s*FASTOR_INDEX\s+i\s*,\s*FASTOR_INDEX\s+j\s*\)\s*const\s*\{', subs2, e2, {}, '@ret'),
+                 '%s: %s 2-D view, eval_s(i,j): (row, column) of the parent' % (V2, tag))
+        G.define('gen_view2d_eval2_%s' % tag, '(f0 s0 f1 s1 N i j : Z)', '(Z * Z)', method(V2, cre2, nth, r'FASTOR_INLINE\s+SIMDVector<U,simd_abi_type>\s+eval\s*\(\s*FASTOR_INDEX\s+i\s*,\s*FASTOR_INDEX\s+j\s*\)\s*const\s*\{', subs2, e2, {}, '@vec'),
+                 '%s: %s 2-D view, eval(i,j): (first offset, stride) of the loaded / gathered vector' % (V2, tag))
+    hdr = ('(** GENERATED by lib/cxx2v.py from the C++ source of /repo on every run -- do not edit.\n'
+           '    Constructor normalisation and index computations of the dynamic 1-D / 2-D view classes. *)\n'
+           'From Coq Require Import ZArith Bool.\n\n')
+    return G, hdr + '\n'.join(G.defs)
+
 def write_generated(repo, coqdir):
     """regenerate coq/Gen/Generated.v from the source (written only when its text changes, so that make
     re-checks the proofs exactly when the translation changed); returns the list of failed translations"""
@@ -672,7 +834,12 @@ def write_generated(repo, coqdir):
     p2 = os.path.join(coqdir, 'Gen', 'GeneratedLinalg.v')
     if not os.path.exists(p2) or open(p2).read() != txt2:
         open(p2, 'w').write(txt2)
-    return G.failed + G2.failed, len(G.defs) - len(G.failed) + len(G2.defs) - len(G2.failed)
+    G3, txt3 = gen_views(repo)
+    p3 = os.path.join(coqdir, 'Gen', 'GeneratedViews.v')
+    if not os.path.exists(p3) or open(p3).read() != txt3:
+        open(p3, 'w').write(txt3)
+    return (G.failed + G2.failed + G3.failed,
+            len(G.defs) - len(G.failed) + len(G2.defs) - len(G2.failed) + len(G3.defs) - len(G3.failed))
 
 if __name__ == '__main__':
     repo = sys.argv[1] if len(sys.argv) > 1 else os.environ.get('FASTOR_REPO', '/repo')
